@@ -65,19 +65,10 @@ import (
 
 var allStructures = []string{"alerts", "window", "metrics", "optracker", "stateless", "informers", "crdt", "trackerlife", "crdtlife", "clusterlife", "clusterearly"}
 
-// clusterearly (Cluster.Shutdown racing ready()) deadlocks on the unchanged tree (known finding K18b) and then costs two watchdog
-// periods: thorough tier and replays only
+// clusterearly (Cluster.Shutdown racing ready()) deadlocked before /repo 87856f0 (finding K18b, fixed): since the fix it runs in
+// every tier — it is the run-time oracle that catches a revert of that commit (stalled=1, goroutine dump in the report).
 func structuresFor(tier string) []string {
-	if tier == "thorough" {
-		return allStructures
-	}
-	var l []string
-	for _, n := range allStructures {
-		if n != "clusterearly" {
-			l = append(l, n)
-		}
-	}
-	return l
+	return allStructures
 }
 
 type childResult struct {
